@@ -852,7 +852,8 @@ def waiting_table_keys(ctx: Ctx, rule: str):
     nc = model.cls("node.node", "Node")
     T = "self._peer_waiting_answer"
     ctx.rule(rule, "the pending-answer table is keyed by <connection>.ident at every "
-                   "insert, lookup, cleanup and removal", floor=5)
+                   "insert, lookup, cleanup and removal", floor=4)   # one site each; a membership test
+    # merged with its insert (setdefault) is one site fewer than today's five, not a vanished anchor
     for f in nc.all_funcs:
         if f.name == "__init__":
             continue
